@@ -167,6 +167,7 @@ def run(ctx):
     inside_atomic_runs(ctx)
     unmanaged_model_runs(ctx)
     failing_preparation_runs(ctx)
+    later_migration_run(ctx)
     rename_plus_new_model_runs(ctx)
     migration_runs(ctx, quick)
     migration_app_runs(ctx)
@@ -664,6 +665,41 @@ def failing_preparation_runs(ctx):
         if tr.write_statements():
             ctx.fail(None, '%s: the run failed while preparing and had already written: %s'
                      % (what, tr.write_statements()[:2]), rep)
+
+
+def later_migration_run(ctx):
+    """a release after the hand-over whose only work is one new migration of the handed-over app (the package itself has
+    nothing to evolve): when `evolved` is sent, what the run did is saved - the stored signature lists the migrations
+    Django's migration table has"""
+    from .c10 import Case, recorder, run_once
+    for (k, m, s_) in ((1, 2, 1), (0, 2, 1)):
+        if ctx.time_left() < 25:
+            return
+        c1, c2 = Case(k, m, s_, False), Case(k, m + 1, s_, False)
+        evorig.fresh_databases()
+        evorig.clear_evolutions()
+        r0 = run_once(c1, ['base'], None, None, None)
+        f1 = ['base'] + c1.fnames + c1.gnames
+        r1 = run_once(c1, f1, c1.evolutions(), c1.migrations(), None, None) if r0['ok'] else r0
+        if not r1['ok']:
+            ctx.count('later_migration_run:handover_failed')
+            continue
+        f2 = ['base'] + c2.fnames + c2.gnames
+        res = run_once(c2, f2, c2.evolutions(), c2.migrations(), None, None, force=True)
+        names = [n for n, _ in res['trace'].signals()]
+        rec = recorder()
+        bk = evorig.bookkeeping()
+        a = bk['sig'].get_app_sig('vapp') if bk['sig'] is not None else None
+        stored = sorted(set(getattr(a, 'applied_migrations', None) or []))
+        rep = {'scenario': 'a migration-only release after the hand-over', 'k': k, 'm': m, 's': s_, 'signals': names,
+               'recorded': rec, 'stored': stored, 'outcome': 'ok' if res['ok'] else res['error']}
+        ctx.count('later_migration_run:%s' % ('ok' if res['ok'] else 'fails'))
+        ctx.case({'scenario': rep['scenario'], 'signals': names}, nontrivial=True, sample_cap=2)
+        for p_ in check_trace(res['trace'], 'ok' if res['ok'] else 'error'):
+            ctx.fail(None, 'migration-only release: %s' % p_, rep)
+        if 'evolved' in names and stored != sorted(set(rec)):
+            ctx.fail(None, 'migration-only release: evolved was sent, but the stored signature lists the migrations %r while '
+                     'the migration table has %r: what the run did was not saved' % (stored, sorted(set(rec))), rep)
 
 
 def other_database_runs(ctx):
